@@ -354,7 +354,9 @@ pub fn check(plans: &[Plan], recs: &[RunRec]) -> Outcome {
                 }
                 None => {
                     let is_last_and_dead = t0_dead && i + 1 == h.lines.len();
-                    if !is_last_and_dead && !(t0_dead) {
+                    // only a probe the engine has finished with can be called unanswered (a run
+                    // cut by a cap may end between delivery and answer)
+                    if !is_last_and_dead && !(t0_dead) && l.t0_yields_back.is_some() {
                         out.violations.push(Violation::new(
                             "no_readyok",
                             format!("probe #{i} (after {:?}) was not answered", h.lines.get(i.wrapping_sub(1)).map(|p| p.text.chars().take(80).collect::<String>())),
